@@ -310,7 +310,19 @@ pub type Task<T> = Pin<Box<dyn Future<Output = T>>>;
 /// the next network event; when nothing is runnable the clock jumps to the next event.
 /// `invariant` is evaluated after every step.
 pub fn run<T>(
+    tasks: Vec<Task<T>>,
+    choose: &mut dyn FnMut(&'static str, u64) -> u64,
+    step_cap: u64,
+    invariant: &mut dyn FnMut() -> Result<(), String>,
+) -> (RunOutcome<T>, Option<String>) {
+    run_round(tasks, 0, choose, step_cap, invariant)
+}
+
+/// One round of concurrently started tasks; `base` is the global id of the round's first task (scripts, history and
+/// connections are indexed by global task id, so several rounds form one history on one service value).
+pub fn run_round<T>(
     mut tasks: Vec<Task<T>>,
+    base: usize,
     choose: &mut dyn FnMut(&'static str, u64) -> u64,
     step_cap: u64,
     invariant: &mut dyn FnMut() -> Result<(), String>,
@@ -343,22 +355,24 @@ pub fn run<T>(
         steps += 1;
         if pick < ready.len() {
             let t = ready[pick];
-            SIM.with(|s| s.borrow_mut().current_task = t);
+            SIM.with(|s| s.borrow_mut().current_task = base + t);
             match tasks[t].as_mut().poll(&mut cx) {
                 Poll::Ready(v) => {
                     results[t] = Some(v);
                     SIM.with(|s| {
                         let mut s = s.borrow_mut();
-                        record(&mut s, t, None, EvKind::TaskCompleted);
+                        record(&mut s, base + t, None, EvKind::TaskCompleted);
                     });
                 }
                 Poll::Pending => runnable[t] = false,
             }
         } else if let Some(t) = deliver_next() {
-            runnable[t] = true;
+            if t >= base && t - base < n {
+                runnable[t - base] = true;
+            }
         }
         for i in &live {
-            if results[*i].is_none() && !events_pending_for(*i) {
+            if results[*i].is_none() && !events_pending_for(base + *i) {
                 quiet_steps[*i] += 1;
             }
         }
